@@ -18,10 +18,12 @@ var sniffFormats = []sniffFormat{
 	spdxSniff{},
 }
 
-var state = make(map[string]sniffState, len(sniffFormats))
+// sniffStates holds the scratch state of the line-based sniffers for a single
+// SniffReader call, keyed by format type.
+type sniffStates map[string]sniffState
 
 type sniffFormat interface {
-	sniff(data []byte) Format
+	sniff(states sniffStates, data []byte) Format
 }
 
 type Sniffer struct{}
@@ -102,9 +104,9 @@ func (fs *Sniffer) SniffReader(f io.ReadSeeker) (Format, error) {
 
 	var format Format
 
-	initSniffState()
+	states := make(sniffStates, len(sniffFormats))
 	for fileScanner.Scan() {
-		format = fs.sniff(fileScanner.Bytes())
+		format = fs.sniff(states, fileScanner.Bytes())
 
 		if format != EmptyFormat {
 			break
@@ -119,9 +121,9 @@ func (fs *Sniffer) SniffReader(f io.ReadSeeker) (Format, error) {
 	return "", fmt.Errorf("unknown SBOM format")
 }
 
-func (fs *Sniffer) sniff(data []byte) Format {
+func (fs *Sniffer) sniff(states sniffStates, data []byte) Format {
 	for _, sniffer := range sniffFormats {
-		format := sniffer.sniff(data)
+		format := sniffer.sniff(states, data)
 		if format != EmptyFormat {
 			return format
 		}
@@ -145,7 +147,7 @@ func (st *sniffState) Format() Format {
 
 type cdxSniff struct{}
 
-func (c cdxSniff) sniff(data []byte) Format {
+func (c cdxSniff) sniff(_ sniffStates, data []byte) Format {
 	// protobom only supports CDX formats as JSON
 	//  we are parsing the JSON in SniffReader by decoding to the SpecVersionStruct
 	//   removing all the previous JSON-related string matching from this function
@@ -157,8 +159,8 @@ func (c cdxSniff) sniff(data []byte) Format {
 
 type spdxSniff struct{}
 
-func (c spdxSniff) sniff(data []byte) Format {
-	state := getSniffState(SPDXFORMAT)
+func (c spdxSniff) sniff(states sniffStates, data []byte) Format {
+	state := states[SPDXFORMAT]
 
 	stringValue := string(data)
 
@@ -185,23 +187,6 @@ func (c spdxSniff) sniff(data []byte) Format {
 		}
 	}
 
-	setSniffState(SPDXFORMAT, state)
+	states[SPDXFORMAT] = state
 	return state.Format()
-}
-
-func initSniffState() {
-	state = make(map[string]sniffState, len(sniffFormats))
-}
-
-func getSniffState(t string) sniffState {
-	dm, ok := state[t]
-	if !ok {
-		state[t] = sniffState{}
-		return state[t]
-	}
-	return dm
-}
-
-func setSniffState(t string, snifferState sniffState) {
-	state[t] = snifferState
 }
